@@ -24,9 +24,13 @@ uint64_t __CPROVER_uninterpreted_out(uint64_t acc, uint64_t i);
 
 #ifdef UF_LOG
 /* C03: log of absorb applications for the injectivity axiom (instantiated by the harness) */
-#define UF_LOG_MAX 96
+#ifndef UF_LOG_MAX
+#define UF_LOG_MAX 40
+#endif
 uint64_t vf_ab_acc[UF_LOG_MAX], vf_ab_n[UF_LOG_MAX], vf_ab_w0[UF_LOG_MAX], vf_ab_w1[UF_LOG_MAX], vf_ab_res[UF_LOG_MAX];
 unsigned vf_ab_cnt;
+uint64_t vf_out_acc[UF_LOG_MAX], vf_out_i[UF_LOG_MAX], vf_out_res[UF_LOG_MAX];
+unsigned vf_out_cnt;
 #endif
 
 static uint64_t absorb(uint64_t acc, const void *data, size_t len)
@@ -54,6 +58,10 @@ static void emit(uint64_t acc, uint8_t *out, size_t n)
 {
   for (size_t w = 0; w * 8 < n; w++) {
     uint64_t v = __CPROVER_uninterpreted_out(acc, w);      /* one application per digest word */
+#ifdef UF_LOG
+    if (vf_out_cnt < UF_LOG_MAX) { vf_out_acc[vf_out_cnt] = acc; vf_out_i[vf_out_cnt] = w; vf_out_res[vf_out_cnt] = v; }
+    vf_out_cnt++;
+#endif
     for (size_t j = 0; j < 8; j++) if (w * 8 + j < n) out[w * 8 + j] = (uint8_t)(v >> (8 * j));
   }
 }
